@@ -560,6 +560,26 @@ theorem pad_width_bounded (cells : List Cell) (col : Int) (hc : col ≤ (Facts.M
   · left; omega
   · right; rfl
 
+/-- the result accounting of `GetRows` is the one the model transcribes -/
+theorem guards_getRows :
+    "emptyRows := cur - maxVal - 1; emptyRows > 0" ∈ Facts.C14.conds_GetRows ∧ "len(row) > 0" ∈ Facts.C14.conds_GetRows ∧
+    Facts.C14.index_GetRows = ["results[:maxVal]", "results[:maxVal]", "results[:maxVal]"] := by decide
+
+/-- `GetRows`: for every sequence of empty / non-empty rows the iterator delivers, `make([][]string,
+emptyRows)` is never negative, `results[:maxVal]` is in range, and the number of rows returned is at most
+the number of iterations (which `Rows.Next` bounds by TotalRows) -/
+theorem no_panic_getRows (iters : List Bool) :
+    (getRows iters).isPanic = false ∧ ∀ n, getRows iters = .ok n → n ≤ iters.length := by
+  unfold getRows
+  obtain ⟨l, m, e, a, c, d⟩ := getRowsLoop_inv iters 0 0 0 (by simp) (Int.le_refl _) (Int.le_refl _)
+  rw [e]
+  simp only [Outcome.bind]
+  rw [if_pos ⟨c, by omega⟩]
+  refine ⟨rfl, ?_⟩
+  intro n hn
+  simp only [Outcome.ok.injEq] at hn
+  omega
+
 /-! ## non-vacuity -/
 
 /-- the hypotheses are satisfiable and the guards do reject: unordered cells (Z1, C1, D1) load
